@@ -53,23 +53,76 @@ def _run_one_slow(cid):
         os.environ.pop('PYVC_FEAS_MS', None)
 
 
-def run_contracts(cids, jobs):
+def _lost(cid, why):
+    """a contract whose worker process did not deliver: undecided (never a verdict about the property)"""
+    return {'cid': cid, 'error': '', 'clauses': {}, 'undecided': [why], 'paths': 0, 'cut_paths': 0, 'trusted': [], 'canaries': {},
+            'solver_time': 0, 'solver_calls': 0, 'inlined': [], 'dropped': [], 'wall': 0, 'functions': {}, 'samples': []}
+
+
+def _child(fn, cid, conn):
+    try:
+        conn.send(fn(cid))
+    except BaseException as e:        # noqa -- the parent turns a silent child into 'undecided'
+        try:
+            conn.send(_lost(cid, "worker failed: %s" % (e,)))
+        except Exception:
+            pass
+    finally:
+        conn.close()
+
+
+def _pmap(fn, cids, jobs, hard_s):
+    """one fresh process per contract, at most `jobs` at a time; a worker that dies (killed, out of memory) or overruns the hard
+    wall-time limit yields an undecided result instead of hanging the check"""
     import multiprocessing as mp
+    ctx = mp.get_context('fork')
+    pending = list(enumerate(cids))
+    running, out = {}, [None] * len(cids)
+    while pending or running:
+        while pending and len(running) < jobs:
+            i, cid = pending.pop(0)
+            pr, pw = ctx.Pipe(duplex=False)
+            p = ctx.Process(target=_child, args=(fn, cid, pw))
+            p.start()
+            pw.close()
+            running[i] = (p, pr, time.time(), cid)
+        progressed = False
+        for i, (p, pr, t0, cid) in list(running.items()):
+            done = None
+            if pr.poll(0):
+                try:
+                    done = pr.recv()
+                except (EOFError, OSError):
+                    done = _lost(cid, "worker process died before delivering a result")
+            elif not p.is_alive():
+                done = _lost(cid, "worker process died (exit code %s)" % p.exitcode)
+            elif time.time() - t0 > hard_s:
+                p.kill()
+                done = _lost(cid, "hard wall-time limit of %d s per contract exceeded" % hard_s)
+            if done is not None:
+                out[i] = done
+                p.join(5)
+                pr.close()
+                del running[i]
+                progressed = True
+        if not progressed:
+            time.sleep(0.05)
+    return out
+
+
+def run_contracts(cids, jobs):
+    wall = float(os.environ.get('PYVC_CONTRACT_WALL_S', '900'))
     if jobs <= 1 or len(cids) <= 1:
         res = [_run_one(c) for c in cids]
     else:
-        ctx = mp.get_context('fork')
-        with ctx.Pool(min(jobs, len(cids)), maxtasksperchild=1) as pool:
-            res = pool.map(_run_one, cids, chunksize=1)
+        res = _pmap(_run_one, cids, min(jobs, len(cids)), wall + 300)
     # verdicts must not depend on machine load: anything that looks like a time-out is decided again with five times the
     # budget and at most 4 solver processes at a time
     again = [i for i, r in enumerate(res) if _shaky(r)]
     if again:
         if os.environ.get('PYVC_VERBOSE'):
             print('retrying with a larger budget:', [cids[i] for i in again], [[n for n, cl in res[i]['clauses'].items() if cl['status'] != 'proved'] for i in again])
-        ctx = mp.get_context('fork')
-        with ctx.Pool(min(4, len(again)), maxtasksperchild=1) as pool:
-            redo = pool.map(_run_one_slow, [cids[i] for i in again], chunksize=1)
+        redo = _pmap(_run_one_slow, [cids[i] for i in again], min(4, len(again)), 5 * wall + 300)
         for i, r in zip(again, redo):
             r['retried_with_larger_budget'] = True
             res[i] = r
@@ -267,7 +320,9 @@ def check(pid, tier, seed, args):
     proof_ok = not (unknown or undecided or missing or errors or proof_lost)
     standin = None
     unreplayed = [v for v in violations if not v[2]]
-    run_standin = (tier == 'thorough') or (not proof_ok) or (not contracts) or (pid in OTHER_LEVEL) or (pid in INTERIM) or bool(unreplayed)
+    # the bounded stand-in runs in both tiers (quick size in the quick tier): three of the seeded changes of the third round were
+    # visible only to it (a size-dependent slip, state leaking between models, a grouping of processes no contract scenario had)
+    run_standin = True
     have_standin = False
     if run_standin and not args.no_standin:
         try:
